@@ -172,28 +172,43 @@ def sp_shadow_let(rng, t):
 
 @special("shadow_match_bind")
 def sp_shadow_match(rng, t):
-    # the marker does not see the names a guard binds: the call of the match-bound function is retagged (a general tail call: harmless);
-    # the model mirrors it (marked 1), the rule says it is no self call (spec 0)
-    return ("#decl enum Fn%s { Has { mb%s(int, int) -> int; k : int; }, No }\nfunc plus%s(a : int, b : int) -> int { a + b + 3 }\n" % (t, t, t) +
-            "func mb%s(e : Fn%s, n : int) -> int\n{\n    let z = n * 2;\n    match e { Fn%s::Has(mb%s, k) -> mb%s(k, z); Fn%s::No -> 0 - 1; }\n}\n" % ((t,) * 6),
-            [("plus%s" % t, 0), ("mb%s" % t, 1)], ["print(mb%s(Fn%s::Has(plus%s, 10), n));" % (t, t, t), "print(mb%s(Fn%s::No, n));" % (t, t)])
+    # a name bound by a record guard hides the function's name (the arm is visited with the guard's table since fix f0e3e9c): the
+    # call of the bound function is NOT a self call.  The bound function takes MORE arguments than the enclosing one, so a wrong
+    # mark slides three arguments over a one-parameter frame (the pinned tree crashed here)
+    return ("#decl enum Fn%s { Has { mb%s(int, int, int) -> int; }, No }\nfunc plus%s(a : int, b : int, c : int) -> int { a + b * 10 + c * 100 }\n" % (t, t, t) +
+            "func mb%s(e : Fn%s) -> int\n{\n    match e { Fn%s::Has(mb%s) -> mb%s(1, 2, 3); Fn%s::No -> 0 - 1; }\n}\n" % ((t,) * 6),
+            [("plus%s" % t, 0), ("mb%s" % t, 0)], ["print(mb%s(Fn%s::Has(plus%s)));" % (t, t, t), "print(mb%s(Fn%s::No) + n);" % (t, t)])
+
+@special("shadow_match_bind_locals")
+def sp_shadow_match_locals(rng, t):
+    # the same with locals and a second payload field in the frame
+    return ("#decl enum Kn%s { Has { kb%s(int, int, int, int) -> int; k : int; }, No }\nfunc four%s(a : int, b : int, c : int, d : int) -> int { a + b + c + d }\n" % (t, t, t) +
+            "func kb%s(e : Kn%s, n : int) -> int\n{\n    let z = n * 2;\n    match e { Kn%s::Has(kb%s, k) -> kb%s(k, z, n, 1); Kn%s::No -> 0 - 1; }\n}\n" % ((t,) * 6),
+            [("four%s" % t, 0), ("kb%s" % t, 0)], ["print(kb%s(Kn%s::Has(four%s, 10), n));" % (t, t, t), "print(kb%s(Kn%s::No, n));" % (t, t)])
 
 @special("shadow_match_bind_block")
 def sp_shadow_match_block(rng, t):
-    # the same arm written as a block: the block's table leads through the guard's table -> the bound name is seen, no retagging
-    return ("#decl enum Hn%s { Has { bb%s(int, int) -> int; k : int; }, No }\nfunc minus%s(a : int, b : int) -> int { a - b }\n" % (t, t, t) +
-            "func bb%s(e : Hn%s, n : int) -> int\n{\n    let z = n * 2;\n    match e { Hn%s::Has(bb%s, k) -> { bb%s(k, z) }; Hn%s::No -> 0 - 1; }\n}\n" % ((t,) * 6),
+    # the same arm written as a block
+    return ("#decl enum Hn%s { Has { bb%s(int, int, int) -> int; k : int; }, No }\nfunc minus%s(a : int, b : int, c : int) -> int { a - b - c }\n" % (t, t, t) +
+            "func bb%s(e : Hn%s, n : int) -> int\n{\n    let z = n * 2;\n    match e { Hn%s::Has(bb%s, k) -> { bb%s(k, z, 1) }; Hn%s::No -> 0 - 1; }\n}\n" % ((t,) * 6),
             [("minus%s" % t, 0), ("bb%s" % t, 0)], ["print(bb%s(Hn%s::Has(minus%s, 10), n));" % (t, t, t), "print(bb%s(Hn%s::No, n));" % (t, t)])
 
 @special("shadow_iflet_bind")
 def sp_shadow_iflet(rng, t):
-    # a name bound by `if let`: the then-branch is a BLOCK, whose own table leads (parent links) through the if-let's table:
-    # the marker's lookup does see the bound name -> not retagged
-    return ("#decl enum Gn%s { Has { ib%s(int, int) -> int; k : int; }, No }\nfunc times%s(a : int, b : int) -> int { a * b + 1 }\n" % (t, t, t) +
-            "func ib%s(e : Gn%s, n : int) -> int\n{\n    let z = n + 2;\n    if let (Gn%s::Has(ib%s, k) = e) { ib%s(k, z) } else { 0 - 1 }\n}\n" % ((t,) * 5),
-            [("times%s" % t, 0), ("ib%s" % t, 0)], ["print(ib%s(Gn%s::Has(times%s, 10), n));" % (t, t, t), "print(ib%s(Gn%s::No, n));" % (t, t)])
+    # a name bound by a record `if let` (more arguments than the enclosing function)
+    return ("#decl enum Gn%s { Has { ib%s(int, int, int) -> int; }, No }\nfunc times%s(a : int, b : int, c : int) -> int { a * b + c }\n" % (t, t, t) +
+            "func ib%s(e : Gn%s) -> int\n{\n    if let (Gn%s::Has(ib%s) = e) { ib%s(4, 5, 6) } else { 0 - 1 }\n}\n" % ((t,) * 5),
+            [("times%s" % t, 0), ("ib%s" % t, 0)], ["print(ib%s(Gn%s::Has(times%s)));" % (t, t, t), "print(ib%s(Gn%s::No) + n);" % (t, t)])
 
-def build_program(rng, nchain=4, nspecial=3, all_tail=False, only=None):
+@special("match_bind_not_shadowing")
+def sp_match_bind_other(rng, t):
+    # a record arm that binds OTHER names: the self call in the arm is still a self tail call (the guard's table leads on to the function's)
+    return ("#decl enum Ln%s { Step { by : int; left : int; }, Done }\nfunc lcmd%s(n : int) -> Ln%s { n <= 0 ? Ln%s::Done : Ln%s::Step(2, n - 1) }\n" % ((t,) * 5) +
+            "func lrun%s(c : Ln%s, acc : int) -> int\n{\n    match c { Ln%s::Done -> acc; Ln%s::Step(by, left) -> lrun%s(lcmd%s(left), acc + by); }\n}\n" % ((t,) * 6) +
+            "func lif%s(c : Ln%s, acc : int) -> int\n{\n    if let (Ln%s::Step(by, left) = c) { lif%s(lcmd%s(left), acc + by) } else { acc }\n}\n" % ((t,) * 5),
+            [("lcmd%s" % t, 0), ("lrun%s" % t, 1), ("lif%s" % t, 1)], ["print(lrun%s(lcmd%s(n), 0));" % (t, t), "print(lif%s(lcmd%s(n), 1));" % (t, t)])
+
+def build_program(rng, nchain=4, nspecial=3, all_tail=False, only=None, force=None):
     """-> dict(src, funcs=[(name, line, expected)], labels, dup_names)"""
     parts, mains, funcs, labels = [PRELUDE], [], [], []
     k = 0
@@ -220,7 +235,8 @@ def build_program(rng, nchain=4, nspecial=3, all_tail=False, only=None):
     if not all_tail:
         names = sorted(SPECIALS)
         rng.shuffle(names)
-        for j, nm in enumerate(names[:nspecial]):
+        chosen = list(force) if force is not None else names[:nspecial]
+        for j, nm in enumerate(chosen):
             fn, core = SPECIALS[nm]
             text, fl, ms = fn(rng, "%d" % j)
             parts.append(text)
@@ -342,8 +358,11 @@ def run(rep, tier, seed, semantic=True, marks=True, constant_stack=True, nprog=N
             progs.append(p)
         # one program holding every context once, alone in its chain (so that every class is seen whatever the seed)
         singles = [[(c[0], True, c[1])] for c in TAIL_CTX] + [[(c[0], False, c[1])] for c in NONTAIL_CTX]
+        allsp = sorted(SPECIALS)
+        per = -(-len(allsp) // -(-len(singles) // 6))      # every special function at least once, whatever the seed
         for j in range(0, len(singles), 6):
-            p = build_program(rng.fork(), nchain=len(singles[j:j + 6]), nspecial=2, only=singles[j:j + 6])
+            k0 = (j // 6) * per
+            p = build_program(rng.fork(), nchain=len(singles[j:j + 6]), only=singles[j:j + 6], force=allsp[k0:k0 + per])
             p["id"] = "s%d" % j
             p["arg"] = rng.range(3, 7)
             progs.append(p)
